@@ -58,9 +58,13 @@ public:
     {
         int mul = 1;
 
+        if (a.dict_.empty() or b.dict_.empty())
+            return UIntDict();
+
+        // one extra bit: the coefficients packed into a slot are signed
         unsigned int N = bit_length(std::min(a.degree() + 1, b.degree() + 1))
                          + bit_length(a.max_abs_coef())
-                         + bit_length(b.max_abs_coef());
+                         + bit_length(b.max_abs_coef()) + 1;
 
         integer_class full = integer_class(1), temp, res;
         full <<= N;
